@@ -29,7 +29,7 @@ func generalOps() []string {
 		"kill", "killQueue", "addDrain", "removeDrain", "terminate", "cancelTerminate",
 		"advance", "advance", "advanceSmall", "tick",
 		"parkSend", "releaseSend", "releaseSend", "waitParked", "killParked", "releaseAuth", "releaseAuth",
-		"raceTimer", "raceTimer", "raceCancel", "syncDuplicate",
+		"raceTimer", "raceTimer", "raceCancel", "syncDuplicate", "raceWake", "raceWake",
 	}
 }
 
@@ -164,7 +164,7 @@ func TestC05RoutingAndDrains(t *testing.T) {
 		"execute", "execute", "execute", "execute",
 		"sync", "sync", "sync", "sync", "syncCompleted", "syncCompleted",
 		"addDrain", "addDrain", "removeDrain", "removeDrain", "terminate", "cancelTerminate",
-		"cancelSync", "cancelStream", "killQueue", "syncDuplicate", "syncIdle",
+		"cancelSync", "cancelStream", "killQueue", "syncDuplicate", "syncIdle", "raceDrain", "raceDrain",
 		"advance", "advance", "advanceSmall", "tick",
 	}
 	p := &profile{
@@ -346,7 +346,7 @@ func TestC04NoTaskQueuedWhileWorkerWaits(t *testing.T) {
 		"syncIdle", "syncIdle", "syncIdle", "sync", "sync", "syncCompleted", "syncCompleted",
 		"addDrain", "addDrain", "removeDrain", "removeDrain", "removeDrain",
 		"cancelSync", "syncDuplicate", "cancelStream", "terminate",
-		"raceTimer", "raceTimer", "raceCancel",
+		"raceTimer", "raceTimer", "raceCancel", "raceDrain", "raceDrain",
 		"advance", "advanceSmall", "advanceSmall", "tick",
 	}
 	p := &profile{
